@@ -88,12 +88,13 @@ func (p *printer) def(d *Def) {
 			p.gap()
 			for _, v := range d.Vars {
 				p.mark(v)
+				p.pos[PosKey{v, "name"}] = p.sb.Len() + 1 // the Name after `$`
 				p.tok("$" + v.Name)
 				p.gap()
 				p.tok(":")
 				p.gap()
 				p.mark(PosKey{v, "type"})
-				p.typeRef(v.Type)
+				p.typeRefMark(v.Type, PosKey{v, "typename"})
 				if v.Default != nil {
 					p.tok("=")
 					p.gap()
@@ -108,12 +109,18 @@ func (p *printer) def(d *Def) {
 	p.selset(d.Sel)
 }
 
-func (p *printer) typeRef(t TypeRef) {
+func (p *printer) typeRef(t TypeRef) { p.typeRefMark(t, nil) }
+
+// typeRefMark prints a type reference and marks the start of the named type under nameKey.
+func (p *printer) typeRefMark(t TypeRef, nameKey interface{}) {
 	// tokens: [ T ! ] !
 	var rec func(t TypeRef)
 	rec = func(t TypeRef) {
 		switch {
 		case t.Wrap == "":
+			if nameKey != nil {
+				p.mark(nameKey)
+			}
 			p.tok(t.Name)
 			p.gap()
 		case t.Wrap[0] == '!':
@@ -177,11 +184,13 @@ func (p *printer) selset(ss []*Sel) {
 			p.args(s.Args)
 			p.dirs(s.Dirs)
 			if len(s.Sel) > 0 {
+				p.mark(PosKey{s, "selset"})
 				p.selset(s.Sel)
 			}
 		case "spread":
 			p.tok("...")
 			p.gap()
+			p.mark(PosKey{s, "name"})
 			p.tok(s.Name)
 			p.gap()
 			p.dirs(s.Dirs)
